@@ -71,7 +71,28 @@ func (env *Env) nilFor(other TV) TV {
 	return TV{T: "zero_" + other.S, S: other.S}
 }
 
+// tr translates an expression; values read from the heap are well-formed for
+// their Go type (a fact about every real heap), which is recorded for ground terms.
 func (env *Env) tr(e Expr) TV {
+	v := env.tr0(e)
+	switch e.(type) {
+	case ESel, EIndex, EUn:
+		if v.G != nil && v.T != "" && !strings.Contains(v.T, "q_") && env.fc.q != nil {
+			if w := env.fc.wf(v.T, v.G); w != "true" {
+				if env.fc.wfSeen == nil {
+					env.fc.wfSeen = map[string]bool{}
+				}
+				if !env.fc.wfSeen[w] {
+					env.fc.wfSeen[w] = true
+					env.fc.q.assume(w)
+				}
+			}
+		}
+	}
+	return v
+}
+
+func (env *Env) tr0(e Expr) TV {
 	fc := env.fc
 	eng := fc.eng
 	switch x := e.(type) {
